@@ -73,6 +73,14 @@ def gen_case(rng, tier, ctx, i):
             # collision with an existing top-level id (rule or item)
             tops = [a for a in base["args"] + [x for x in adds if not x.get("_refuse")] if a.get("id") and a["k"] not in ("var",)]
             tl_items = [a for a in base["args"] if a["k"] == "var"]
+            anyrule = [a for a in base["args"] + [x for x in adds if not x.get("_refuse")] if a["k"] != "var"]
+            if anyrule and rng.random() < 0.35:
+                # an existing top-level rule (named or anonymous) offered once more with identical content
+                import copy
+                rule = copy.deepcopy(rng.choice(anyrule))
+                rule["_refuse"] = True
+                adds.append(rule)
+                continue
             if tl_items and rng.random() < 0.4:
                 rule = confgen.gen_rule(rng, items, idgen)
                 rule["id"] = rng.choice(tl_items)["id"]          # a rule named like an existing top-level item
